@@ -119,6 +119,51 @@ CHECKS = {
              "history of length <= 4/5 with NeverReplaced checked by TLC.",
         note="Trusted: TLC, hashlib as the reference digest, open()/hashlib.new() observation wrappers.",
         design="4 C16"),
+    "C20": dict(
+        technique="TLA+ configuration spec ComposeLayout.tla (directory layouts, probing precedence, accessor results): TLC enumerates every configuration; each is materialised on disk and opened by the real Compose",
+        text="TLC enumerates ~4k (quick) / ~9k configurations: states of the path, compose/, two legacy sub-directories x manifest file names "
+             "(current, legacy, both, none) x content (valid, valid-empty, not JSON, empty, other format) x undecodable composeinfo x trailing "
+             "slash, checks Prefers/Exists on the model and emits the allowed resolution set and each accessor's expected result; the real "
+             "Compose must resolve into the allowed set, every accessor equals a direct load of an acceptable file, is the same object on "
+             "re-access after the files were replaced, and missing/undecodable files raise RuntimeError naming the location/file.",
+        note="Trusted: TLC, temp-dir materialisation from real dumps. Left open where the statement is silent (several legacy dirs, both names). HTTP not exercised.",
+        design="4 C20"),
+    "C01": dict(
+        technique="TLA+ document spec ComposeInfoDoc.tla (abstract compose -> documented JSON layout, normalisations): TLC checks structural invariants of Ser and enumerates descriptions; real write / independent parse / read / rewrite compared",
+        text="TLC enumerates compose descriptions in four slices (forest shapes x 4 variant types incl. layered-product and a dashed top-level UID; "
+             "arch sets; path tables with empty and foreign-arch values over the 14 documented categories; release/base-product/compose "
+             "sections over every type, label and flag) with the documented document and checks TopDetect, UidOnce, ChildArch, "
+             "FinalOnlyWithLabel, StoredInArches on it; each is built through the public API, the written file is compared with the spec's "
+             "document by json.loads (oracle independent of the library's reader), the re-read object is compared field by field with the "
+             "input under the documented normalisations, and re-written byte for byte.",
+        note="Trusted: TLC, the concretiser (3 id tables x 3 arch tables x 3 text tables rotated), containment comparison for the document (extras tolerated), exact for re-read fields.",
+        design="4 C01"),
+    "C02": dict(
+        technique="TLA+ document spec ImagesDoc.tla (manifests over a six-image pool -> documented JSON layout): TLC enumerates manifests; real write / independent parse / read / rewrite compared",
+        text="TLC enumerates every manifest filing pool images (field classes of the quantifier) into <= 2-3 cells with <= 2-3 images each, the "
+             "same image possibly in several cells, and checks NothingLost / UnifiedOnlyWhenTrue / NoEmptyCell on the documented layout; the "
+             "real manifest is built with Images.add, the written file must equal the spec's document cell by cell (sorted by path, unified "
+             "keys only when unified), the re-read manifest must hold the same number of images per cell with all fifteen attributes equal "
+             "(type included), compose intact, re-written byte for byte. Types/formats rotate over all supported values.",
+        note="Trusted: TLC, concretiser. Identity-compatible pools only (collisions are C09).",
+        design="4 C02"),
+    "C04": dict(
+        technique="TLA+ document spec TreeInfoDoc.tla (abstract tree -> documented INI layout incl. [general]; discinfo slice): TLC enumerates trees; real write / independent INI parse / read / rewrite compared",
+        text="TLC enumerates trees in slices (top-level variants incl. both dashed-UID shapes keyed by uid or id, children of every type, a "
+             "grandchild, path-kind subsets rotating over the seven kinds, binary/src, platforms, layered, image tables, stage2, media, "
+             "checksums) with the documented sections and checks SectionPerVariant, TreeListsTops, ArchInPlatforms, GeneralMirrors; text values "
+             "rotate over the quantifier's value classes. Real file vs spec document via RawConfigParser, re-read facts vs input, re-dump bytes. "
+             "discinfo: 80 class combinations. Known findings F-04b (dashed variant keyed by id) and F-04c ('%' interpolation) are reported by signature.",
+        note="Trusted: TLC, independent INI reader, concretiser.",
+        design="4 C04"),
+    "C17": dict(
+        technique="TLA+ document spec TreeInfoDoc.tla: [general] defined in the spec as the function of the authoritative sections the statement gives; real dump(main_variant=...) parsed independently and compared; compatibility sections fed to the real legacy reader",
+        text="For every tree of the C04 generation (plus float timestamps, every main-variant choice, packages/repository present, absent or only "
+             "as source_*), each [general] key of the real output must equal the value the spec computes from [release]/[tree]/[variant-*] "
+             "and mirror those sections inside the same file; for undashed main variants the compatibility sections alone are loaded by the "
+             "real pre-productmd reader and compared with the tree.",
+        note="Trusted: TLC, independent INI reader. Dashed variants keyed by id excluded (F-04b, reported under C04).",
+        design="4 C17"),
 }
 
 
